@@ -315,8 +315,8 @@ def judge_inverse(ns, ctx, case, aspects=('closure', 'reverse', 'symmetry', 'shi
             da = abs(wrap180(a21 - (oaz + 180.0)))
             ctx.count('reverse_judged')
             if da > allow:
-                # known finding classifier: cancellation noise eps*a/s of the azimuth formulae on very short lines
-                # (measured on 10 413 such lines: all shorter than 1 m, excess <= 0.48 eps*a/s)
+                # mechanism name only (no longer a known finding: repaired in /repo by 70a8bc2): cancellation noise
+                # eps*a/s of two independently evaluated azimuth formulae on very short lines
                 envelope = math.degrees(4 * EPS * a / max(s, 1e-3))
                 if s < 10.0 and da <= envelope:
                     ctx.violation('vincinv:reverse-azimuth-noise-on-short-line', case,
